@@ -4,15 +4,15 @@ UNITS = [
     Unit('relocsize', harness=['../C04/h_addrtab.cpp'], repo_units=['asmjit/core/codeholder.cpp', 'asmjit/core/codewriter.cpp']),
     Unit('newsect', harness=['h_newsect.cpp'], repo_units=['asmjit/core/codeholder.cpp'], extra_c=['memmove_words.c']),
 ]
-B_SEC = '4 sections in by-order sequence; alignment 2^0..2^16 each (text also 0); virtual size all 2^64 values; '
+B_SEC = '4 sections in by-order sequence (h_flatten: section ids = creation order is one of three permutations of it); alignment 2^0..2^16 each (text also 0); virtual size all 2^64 values; '
 HARNESSES = [
     Harness('layout', 'h_flatten', unwind=17, bounds=B_SEC + 'buffer size 0..16', mem_gb=1, timeout=900),
     Harness('layout', 'h_flatten_kf_C10a', unwind=17, known='C10a', bounds=B_SEC + 'buffer size 0..16; confined to: an empty section receives alignment padding as virtual size', mem_gb=1, timeout=900),
-    Harness('layout', 'h_flatten_copy', unwind=41, bounds=B_SEC + 'buffer size 0..6 with symbolic bytes; destination size 0..24 inside 8+8 guard bytes with symbolic previous content; all 2^32 CopySectionFlags values', mem_gb=3, timeout=900),
-    Harness('layout', 'h_flatten_copy_mid', unwind=49, bounds=B_SEC + 'buffer size 0..8; destination size 0..32; all flags', mem_gb=4, timeout=1800, tiers=('thorough',)),
-    Harness('layout', 'h_flatten_copy_big', unwind=81, bounds=B_SEC + 'buffer size 0..16; destination size 0..64; all flags', mem_gb=8, timeout=3600, tiers=('thorough',)),
-    Harness('layout', 'h_copy_arbitrary', unwind=41, bounds=B_SEC + 'buffer size 0..6; section offsets all 2^64 values (overlapping / unset included); destination 0..24', mem_gb=3, timeout=900),
-    Harness('layout', 'h_copy_arbitrary_mid', unwind=49, bounds=B_SEC + 'buffer size 0..8; section offsets all 2^64 values; destination 0..32', mem_gb=4, timeout=1800, tiers=('thorough',)),
+    Harness('layout', 'h_flatten_copy', unwind=65, bounds=B_SEC + 'buffer size 0..6 with symbolic bytes; destination size 0..24 with symbolic previous content inside one array with 8 leading and 32 trailing guard bytes (fixed pattern); all 2^32 CopySectionFlags values', mem_gb=3, timeout=900),
+    Harness('layout', 'h_flatten_copy_mid', unwind=81, bounds=B_SEC + 'buffer size 0..8; destination size 0..32; all flags', mem_gb=4, timeout=1800, tiers=('thorough',)),
+    Harness('layout', 'h_flatten_copy_big', unwind=145, bounds=B_SEC + 'buffer size 0..16; destination size 0..64; all flags', mem_gb=8, timeout=3600, tiers=('thorough',)),
+    Harness('layout', 'h_copy_arbitrary', unwind=65, bounds=B_SEC + 'buffer size 0..6; section offsets all 2^64 values (overlapping / unset included); destination 0..24', mem_gb=3, timeout=900),
+    Harness('layout', 'h_copy_arbitrary_mid', unwind=81, bounds=B_SEC + 'buffer size 0..8; section offsets all 2^64 values; destination 0..32', mem_gb=4, timeout=1800, tiers=('thorough',)),
     Harness('newsect', 'h_new_section', unwind=6, bounds='1..3 existing sections in any (order,id)-sorted sequence with symbolic int32 orders; new order int32, alignment uint32, flags 16 bit, name size 0..39 or strlen', mem_gb=2, timeout=600),
     # size estimated before relocation >= size after it, and after == estimate - RelocationSummary.code_size_reduction (the C04 address-table harness)
     Harness('relocsize', 'h_addrtab_one', unwind=33, bounds='x86-64; one call/jmp site, target and base all 2^64; .text + user section before or after .addrtab; flatten, code_size, relocate_to_base, code_size', mem_gb=2, timeout=900),
